@@ -570,6 +570,203 @@ def r4_registry_wrappers(ctx):
     r1_direction_wrapper(ctx)
 
 
+# ---------------------------------------------------------------------------
+# R5: scalar arithmetic is defined on the closed parameter box
+
+_INF = float("inf")
+
+
+def _param_box(mod):
+    """{name: (min, max)} from the params.add(...) calls of
+    get_parameter_defaults (missing bound = unbounded)"""
+    fn = mod.funcs.get("get_parameter_defaults")
+    if fn is None:
+        raise AnchorError(f"{mod.relpath}: get_parameter_defaults missing")
+    box = {}
+    for c in ast.walk(fn):
+        if isinstance(c, ast.Call) and isinstance(c.func, ast.Attribute) \
+                and c.func.attr == "add" and c.args:
+            name = const_str(c.args[0])
+            if name is None:
+                continue
+            lo, hi = -_INF, _INF
+            for k in c.keywords:
+                if k.arg in ("min", "max"):
+                    try:
+                        v = float(literal(k.value))
+                    except Exception:
+                        v = None
+                    if v is not None:
+                        if k.arg == "min":
+                            lo = v
+                        else:
+                            hi = v
+            box[name] = (lo, hi)
+    return box
+
+
+def _imul(a, b):
+    ps = []
+    for x in a:
+        for y in b:
+            if (x == 0 and abs(y) == _INF) or (y == 0 and abs(x) == _INF):
+                ps.append(0.0)
+            else:
+                ps.append(x * y)
+    return (min(ps), max(ps))
+
+
+def _interval(e, env):
+    """interval of a scalar expression, or None when unknown"""
+    import math
+    if isinstance(e, ast.Constant) and isinstance(e.value, (int, float)) \
+            and not isinstance(e.value, bool):
+        return (float(e.value), float(e.value))
+    if isinstance(e, ast.Name):
+        return env.get(e.id)
+    if isinstance(e, ast.Attribute) and norm(e) in ("np.pi", "math.pi",
+                                                    "numpy.pi"):
+        return (math.pi, math.pi)
+    if isinstance(e, ast.Name) and e.id == "pi":
+        return (math.pi, math.pi)
+    if isinstance(e, ast.UnaryOp) and isinstance(e.op, (ast.USub, ast.UAdd)):
+        v = _interval(e.operand, env)
+        if v is None:
+            return None
+        return (-v[1], -v[0]) if isinstance(e.op, ast.USub) else v
+    if isinstance(e, ast.BinOp):
+        a, b = _interval(e.left, env), _interval(e.right, env)
+        if isinstance(e.op, ast.Pow) and a is not None and isinstance(
+                e.right, ast.Constant) and isinstance(
+                e.right.value, (int, float)):
+            n = e.right.value
+            if n == int(n) and n >= 0 and int(n) % 2 == 0:
+                lo = 0.0 if a[0] <= 0 <= a[1] else min(abs(a[0]),
+                                                       abs(a[1])) ** n
+                return (lo, max(abs(a[0]), abs(a[1])) ** n)
+            if n >= 0 and a[0] >= 0:
+                return (a[0] ** n, a[1] ** n)
+            return None
+        if a is None or b is None:
+            return None
+        if isinstance(e.op, ast.Add):
+            return (a[0] + b[0], a[1] + b[1])
+        if isinstance(e.op, ast.Sub):
+            return (a[0] - b[1], a[1] - b[0])
+        if isinstance(e.op, ast.Mult):
+            return _imul(a, b)
+        if isinstance(e.op, ast.Div):
+            if b[0] <= 0 <= b[1]:
+                return None
+            return _imul(a, (1 / b[1], 1 / b[0]))
+        return None
+    if isinstance(e, ast.Call) and call_name(e) in ("np.sqrt", "math.sqrt") \
+            and len(e.args) == 1:
+        a = _interval(e.args[0], env)
+        if a is None or a[0] < 0:
+            return None
+        return (a[0] ** .5, a[1] ** .5)
+    return None
+
+
+def _doc_singular(fdoc):
+    """symbols the documented formula itself divides by"""
+    out = set()
+    for mono in fdoc.num:
+        for k, e in mono:
+            if e < 0:
+                out |= set(re.findall(r"[A-Za-z_][A-Za-z_0-9]*", str(k)))
+    if not (len(fdoc.den) == 1 and all(not m for m in fdoc.den)):
+        for mono in fdoc.den:
+            for k, e in mono:
+                out |= set(re.findall(r"[A-Za-z_][A-Za-z_0-9]*", str(k)))
+    return out
+
+
+def r5_defined_on_the_box(ctx):
+    """`valuesdict()` hands Python floats to the model function: a scalar
+    division (or negative power) whose denominator can be zero for a
+    parameter vector inside the declared bounds raises ZeroDivisionError
+    instead of returning the documented value (array operands divide
+    elementwise and do not raise).  Where the documented formula itself
+    divides by that parameter there is no documented value to return."""
+    mods = facts.model_modules(ctx.repo)
+    n = 0
+    for mod in mods:
+        fn = facts.model_func(mod)
+        box = _param_box(mod)
+        try:
+            singular = _doc_singular(doc_formula(mod, fn)[0])
+        except Undecided:
+            singular = set()
+        params = [a.arg for a in fn.args.args]
+        arrays = {params[0]}
+        env = {p_: box.get(p_, (-_INF, _INF)) for p_ in params[1:]}
+
+        def is_array(e):
+            for x in ast.walk(e):
+                if isinstance(x, ast.Name) and x.id in arrays:
+                    return True
+                if isinstance(x, ast.Call) and (call_name(x) or "") in (
+                        "np.zeros_like", "np.ones_like", "np.zeros",
+                        "np.array", "np.asarray", "np.arange",
+                        "np.linspace"):
+                    return True
+            return False
+        for st in ast.walk(fn):
+            if isinstance(st, ast.Assign) and len(st.targets) == 1 and \
+                    isinstance(st.targets[0], ast.Name):
+                if is_array(st.value):
+                    arrays.add(st.targets[0].id)
+        for st in fn.body:
+            for node in ast.walk(st):
+                den = None
+                if isinstance(node, ast.BinOp) and isinstance(
+                        node.op, ast.Div):
+                    if is_array(node.left) or is_array(node.right):
+                        continue
+                    den = node.right
+                elif isinstance(node, ast.BinOp) and isinstance(
+                        node.op, ast.Pow) and not is_array(node.left):
+                    ex = _interval(node.right, env)
+                    if ex is not None and ex[1] < 0:
+                        den = node.left
+                if den is None:
+                    continue
+                n += 1
+                iv = _interval(den, env)
+                names = sorted({x.id for x in ast.walk(den)
+                                if isinstance(x, ast.Name) and x.id in box})
+                if iv is None:
+                    # unknown shape: decide only for a bare product of
+                    # parameters, otherwise say so
+                    if not names:
+                        ctx.ok(node, f"{mod.name.split('.')[-1]}: "
+                               f"denominator {norm(den)[:40]} has no "
+                               "parameter")
+                        continue
+                    raise Undecided(f"{mod.relpath}: cannot bound the scalar "
+                                    f"denominator {norm(den)[:50]}")
+                if iv[0] <= 0 <= iv[1] and names and set(names) <= singular:
+                    ctx.ok(node, f"{mod.name.split('.')[-1]}: the documented "
+                           f"formula divides by {', '.join(names)} as well")
+                    continue
+                ctx.check(not (iv[0] <= 0 <= iv[1]), node,
+                          f"{mod.name.split('.')[-1]}: scalar denominator "
+                          f"{norm(den)[:40]} in [{iv[0]:g}, {iv[1]:g}]",
+                          f"{mod.relpath}: the scalar expression "
+                          f"`{norm(node)[:60]}` divides by `{norm(den)[:40]}`"
+                          f", which is zero for a parameter vector inside "
+                          f"the declared bounds ({', '.join(names)}): the "
+                          "model raises ZeroDivisionError there instead of "
+                          "returning the documented force")
+            if isinstance(st, ast.Assign) and len(st.targets) == 1 and \
+                    isinstance(st.targets[0], ast.Name) and \
+                    st.targets[0].id not in arrays:
+                env[st.targets[0].id] = _interval(st.value, env)
+    ctx.floor("scalar divisions in shipped models", n, 5)
+
+
 RULES = [
     ("C02-R1", "contact branch equals the documented formula exactly",
      r1_formula_agreement),
@@ -581,4 +778,6 @@ RULES = [
     ("C02-R4", "the registry evaluates a shipped model through stateless "
      "default wrappers that hand every parameter value to the model "
      "function", r4_registry_wrappers),
+    ("C02-R5", "scalar prefactors are defined for every parameter vector "
+     "inside the declared bounds", r5_defined_on_the_box),
 ]
